@@ -36,7 +36,7 @@ fi
 echo "== merge ag/$first"
 cd /verif
 git add -A; git commit -qm "wip before integrating $ids" >/dev/null 2>&1
-git merge --no-edit ag/$first >/tmp/merge-$first.log 2>&1 || { cat /tmp/merge-$first.log | tail -5; fail "merge conflict"; }
+git merge --no-edit -X theirs ag/$first >/tmp/merge-$first.log 2>&1 || { cat /tmp/merge-$first.log | tail -5; fail "merge conflict"; }
 echo "== lake build"
 (cd lean && lake build 2>&1 | grep -v '^trace\|^⚠\|^✔\|warning\|Hint\|apply\|Note\|^$\|^  ' | tail -15)
 (cd lean && lake build >/dev/null 2>&1) || fail "lake build failed"
